@@ -256,6 +256,11 @@ func (x *Exec) generate(want func(name string) bool) []*FuncReport {
 			reports = append(reports, x.verifyLemma(l))
 		}
 	}
+	if want("sweep.frame") {
+		n := len(x.obls)
+		x.frameSweep()
+		reports = append(reports, &FuncReport{Key: "sweep.frame", Obls: len(x.obls) - n})
+	}
 	sort.SliceStable(reports, func(i, j int) bool { return reports[i].Key < reports[j].Key })
 	return reports
 }
